@@ -920,6 +920,10 @@ func TestVerifC07(t *testing.T) {
 				ck.Sample(desc)
 			}
 			strs := hStrings(hg.nt, 6)
+			if hg.nt > 5 {
+				// large alphabets: the sentences themselves plus every single-token edit of them
+				strs = hSentenceNeighbours(hg, 8, 60)
+			}
 			for in, inp := range hg.inputs {
 				e := newEarley(hg, inp.Nonterminal)
 				for _, w := range strs {
@@ -973,6 +977,46 @@ func TestVerifC07(t *testing.T) {
 			}
 			if !hg.useful() {
 				continue
+			}
+		}
+		if i%4 == 3 {
+			// two left contexts x / y around conflicting unit reductions:
+			// S -> x N1 t1 | x N2 t2 | y N3 t3 | y N4 t4 with N -> e | f and tails over {a b c d}
+			nt := 9
+			hg = &hGrammar{nt: nt, nn: 5, inputs: []Input{{Nonterminal: Sym(nt), Eoi: true}}}
+			S := Sym(nt)
+			N := []Sym{Sym(nt + 1), Sym(nt + 2), Sym(nt + 3), Sym(nt + 4)}
+			tails := func() []Sym {
+				var s []Sym
+				for k := 0; k < 2+r.Intn(2); k++ {
+					s = append(s, Sym(3+r.Intn(4)))
+				}
+				return s
+			}
+			base := tails()
+			vary := func() []Sym {
+				t := append([]Sym(nil), base...)
+				t[len(t)-1] = Sym(3 + r.Intn(4))
+				if r.Intn(3) == 0 {
+					t = tails()
+				}
+				return t
+			}
+			second := []Sym{N[0], N[1]}
+			if r.Intn(2) == 0 {
+				second = []Sym{N[2], N[3]}
+			}
+			hg.rules = []Rule{
+				{LHS: S, RHS: append([]Sym{1, N[0]}, vary()...)},
+				{LHS: S, RHS: append([]Sym{1, N[1]}, vary()...)},
+				{LHS: S, RHS: append([]Sym{2, second[0]}, vary()...)},
+				{LHS: S, RHS: append([]Sym{2, second[1]}, vary()...)},
+				{LHS: N[0], RHS: []Sym{7}}, {LHS: N[1], RHS: []Sym{7}},
+				{LHS: N[2], RHS: []Sym{8}}, {LHS: N[3], RHS: []Sym{8}},
+			}
+			if second[0] == N[0] {
+				hg.rules = hg.rules[:6]
+				hg.nn = 3
 			}
 		}
 		one(hg)
